@@ -131,6 +131,9 @@ def check_encode(ctx, F, A):
         ctx.violation("BELOW-FLOOR", "R-C07-OOM|outcomes", where, "encode() must have Ok and Err outcomes")
     # ---- constants
     ext = [o for o in obs if o["method"] == "extend_from_slice"]
+    ctx.sample({"encode_buffer_writes_observed": [{"line": o["line"], "method": o["method"],
+                                                  "bytes": [("0x%02x" % c if isinstance(c, int) else "sym") for c in (o.get("consts") or [])][:8]}
+                                                 for o in obs if o["method"] in ("extend_from_slice", "push")][:8]})
     consts = [tuple(o["consts"]) if o.get("consts") else None for o in ext]
     ctx.count("R-C07-CONST", 4)
     def have(c):
@@ -282,6 +285,7 @@ def check_iter(ctx, F, A):
             if not ok:
                 ctx.violation("R-C07-ITER", "Init(%d)" % n, where, "Init(%d) must emit 0x%02x and go to Init(%d) (got %r)" %
                               (n, START_SEQ[n], n + 1, [(emitted(r), r["state"]) for r in rs]))
+        ctx.sample({"iterator_encoder_transitions": [{"state": "Init(%d)" % n, "emits": "0x%02x" % START_SEQ[n], "next": "Init(%d)" % (n + 1)} for n in (0, 4, 7)]})
         # Init(8) and HandlingEscape(4) continue with a data byte (LookingForEscape(0))
         for variant, n in (("Init", 8), ("HandlingEscape", 4), ("LookingForEscape", 0), ("LookingForEscape", 2), ("LookingForEscape", 3)):
             ctx.count("R-C07-ITER")
